@@ -5,9 +5,8 @@ Model of the changepoint helpers of tsdate/rescaling.py.
     def _fixed_changepoints(counts, epochs):
         assert epochs > 0
         Y = np.append(0.0, np.cumsum(counts))
-        Z = Y / Y[-1]
-        z = np.linspace(0, 1, epochs + 1)          # numba: z[i] = 0.0 + i * (1.0 / epochs), z[-1] = 1.0
-        e = np.searchsorted(Z, z, "right") - 1
+        # (since fix 412a87a) boundary k is the last index where Y[i]/Y[-1] <= k/epochs, cross-multiplied:
+        e = np.searchsorted(Y * epochs, np.arange(epochs + 1) * Y[-1], "right") - 1
         if e[0] > 0: e[0] = 0
         if e[-1] < counts.size: e[-1] = counts.size
         return e.astype(np.int32)
@@ -54,21 +53,20 @@ section Fixed
 variable {α : Type} [Inhabited α] [Add α] [Mul α] [Div α] [OfNat α 0] [OfNat α 1]
   [LE α] [DecidableLE α] [LT α] [DecidableLT α]
 
-/-- `Z = Y / Y[-1]` with `Y = append(0, cumsum(counts))` -/
-def massFractions (counts : List α) : List α :=
-  let Y := prefixFrom 0 counts
-  Y.map (fun y => y / lget Y counts.length)
+/-- `Y * epochs` with `Y = append(0, cumsum(counts))` -/
+def scaledSums (cast : Nat → α) (counts : List α) (epochs : Nat) : List α :=
+  (prefixFrom 0 counts).map (fun y => y * cast epochs)
 
-/-- numba's `np.linspace(0, 1, epochs + 1)[k]` -/
-def zgrid (cast : Nat → α) (epochs k : Nat) : α :=
-  if k = epochs then 1 else 0 + cast k * (1 / cast epochs)
+/-- `(np.arange(epochs + 1) * Y[-1])[k]` -/
+def target (cast : Nat → α) (counts : List α) (k : Nat) : α :=
+  cast k * lget (prefixFrom 0 counts) counts.length
 
-/-- `np.searchsorted(Z, z, "right")` for sorted `Z` -/
+/-- `np.searchsorted(a, v, "right")` for sorted `a` -/
 def searchRight (zs : List α) (z : α) : Nat := zs.countP (fun x => decide (x ≤ z))
 
 /-- entry `k` of the result, before the two end corrections -/
 def fixedRaw (cast : Nat → α) (counts : List α) (epochs k : Nat) : Nat :=
-  searchRight (massFractions counts) (zgrid cast epochs k) - 1
+  searchRight (scaledSums cast counts epochs) (target cast counts k) - 1
 
 /-- entry `k` of `_fixed_changepoints(counts, epochs)`, after the two end corrections -/
 def fixedAt (cast : Nat → α) (counts : List α) (epochs k : Nat) : Nat :=
@@ -81,11 +79,10 @@ def fixedAt (cast : Nat → α) (counts : List α) (epochs k : Nat) : Nat :=
 def fixedChangepoints (cast : Nat → α) (counts : List α) (epochs : Nat) : List Nat :=
   (List.range (epochs + 1)).map (fixedAt cast counts epochs)
 
-/-- what the code needs to be meaningful: `epochs > 0` (asserted), counts non-negative with positive
-total (not asserted: with total 0 the code divides 0/0 and returns negative indices) -/
+/-- what the code needs to be meaningful: `epochs > 0` (asserted) and non-negative counts (so that the
+cumulative sums are sorted; not asserted).  A zero total is fine since the cross-multiplied form. -/
 def fixedPre (counts : List α) (epochs : Nat) : Bool :=
-  decide (0 < epochs) && counts.all (fun c => decide (0 ≤ c)) &&
-    decide (0 < lget (prefixFrom 0 counts) counts.length)
+  decide (0 < epochs) && counts.all (fun c => decide (0 ≤ c))
 
 end Fixed
 
